@@ -89,6 +89,20 @@ def check_case(case):
                     f'{bad_sig_required} REQUIRED with allowlist={allow} denylist={deny}')
   built = G.build(shape, gin)
   sig = built.signature()
+  # a function under a functools.wraps decorator: what Gin wraps and calls is (*args, **kwargs);
+  # no positional argument has a name, so a positional marker is "REQUIRED for an unnamed variadic
+  # positional argument", and bindings cannot be dropped in favour of positional arguments
+  if shape.get('twin_required_defaults') is not None:
+    labels.add('twin-from-same-def-registered-first')
+    if sorted(shape['twin_required_defaults']) != sorted(req_defaults):
+      labels.add('twin-defaults-differ')
+  decorated = bool(shape.get('decorated'))
+  if decorated:
+    labels.add('decorated-function')
+    if req_defaults or allow or deny:
+      raise OutOfDomain('signature defaults / lists of a function hidden behind a decorator')
+    named = []
+  hidden = [] if decorated else None
   model = {}
   for scope, param, value in case['bindings']:
     if not configurable_param(param):
@@ -102,7 +116,7 @@ def check_case(case):
       es.enter_context(gin.config_scope(entry))
     active = gin.current_scope()
     app = M.overlay(model, active)
-    pos_names = M.positional_names(sig, len(args))
+    pos_names = [] if decorated else M.positional_names(sig, len(args))
     # --- the reference rule -------------------------------------------------------------
     vararg_required = any(a is gin.REQUIRED for a in args[len(pos_names):])
     req_pos = [(i, pos_names[i]) for i in range(len(pos_names)) if args[i] is gin.REQUIRED]
@@ -156,7 +170,7 @@ def check_case(case):
         for i, p in req_pos:
           new_args[i] = app2[p]
         new_kwargs = {k: v for k, v in kwargs.items() if v is not gin.REQUIRED}
-        verdict2, exp2 = M.expected_call(sig, new_args, new_kwargs, app2)
+        verdict2, exp2 = M.expected_call(sig, new_args, new_kwargs, app2, hidden)
         try:
           rec2 = built.call(args, kwargs)
           raised2 = None
@@ -175,7 +189,7 @@ def check_case(case):
     for i, p in req_pos:
       new_args[i] = app[p]
     new_kwargs = {k: v for k, v in kwargs.items() if v is not gin.REQUIRED}
-    verdict, exp = M.expected_call(sig, new_args, new_kwargs, app)
+    verdict, exp = M.expected_call(sig, new_args, new_kwargs, app, hidden)
     if verdict == 'TypeError':
       require(isinstance(raised, TypeError) and not ran, 'typeerror-expected',
               lambda: f'{exp}; raised={raised!r}')
@@ -219,6 +233,14 @@ def strategy(draw):
         subset = [p for p in subset if p not in shape['required_defaults']]
     if subset:
       shape['allowlist' if lists == 'allow' else 'denylist'] = subset
+  if (shape['kind'] == 'function' and defaulted and 'allowlist' not in shape and
+      'denylist' not in shape and draw(st.integers(0, 4)) == 0):
+    shape['twin_required_defaults'] = draw(st.lists(st.sampled_from(defaulted), unique=True))
+  elif shape['kind'] == 'function' and draw(st.integers(0, 5)) == 0:
+    shape['decorated'] = draw(st.integers(1, 2))
+    shape['required_defaults'] = []
+    shape.pop('allowlist', None)
+    shape.pop('denylist', None)
   entries = draw(st.lists(st.sampled_from(['s', 't', 's/t', None, ['s', 't'], ['u']]),
                           max_size=3))
   pool = named + (G.EXTRA if shape['varkw'] else [])
